@@ -58,12 +58,34 @@ static std::string num(double v)
 static double worst[16];
 
 // ---------------------------------------------------------------- univariate helpers
+// Reference type of the univariate sweep: __float128 (libquadmath) for the double build; for the float build the host's double
+// libm, whose error (< 1 ulp of double = 2^-29 float eps) is far below the float budget and which makes the COMPLETE sweep of all
+// 2^32 arguments affordable (about 20x faster than libquadmath).
+#if A_SIZE_REAL + 0 == 4
+typedef double UQ;
+static UQ r_asinh(UQ x) { return std::asinh(x); }
+static UQ r_acosh(UQ x) { return std::acosh(x); }
+static UQ r_atanh(UQ x) { return std::atanh(x); }
+static UQ r_expm1(UQ x) { return std::expm1(x); }
+static UQ r_log1p(UQ x) { return std::log1p(x); }
+static inline UQ u_abs(UQ v) { return std::fabs(v); }
+static inline bool u_fin(UQ v) { return std::isfinite(v); }
+#else
+typedef Q UQ;
+static UQ r_asinh(UQ x) { return asinhq(x); }
+static UQ r_acosh(UQ x) { return acoshq(x); }
+static UQ r_atanh(UQ x) { return atanhq(x); }
+static UQ r_expm1(UQ x) { return expm1q(x); }
+static UQ r_log1p(UQ x) { return log1pq(x); }
+static inline UQ u_abs(UQ v) { return fabsq(v); }
+static inline bool u_fin(UQ v) { return finiteq(v) != 0; }
+#endif
 struct U1
 {
     const char *name;
     a_real (*fallback)(a_real);
     a_real (*bound)(a_real);
-    Q (*ref)(Q);
+    UQ (*ref)(UQ);
     bool (*dom)(double);
 };
 static bool d_all(double) { return true; }
@@ -71,8 +93,8 @@ static bool d_acosh(double x) { return x >= 1; }
 static bool d_atanh(double x) { return std::fabs(x) < 1; }
 static bool d_log1p(double x) { return x > -1; }
 static const U1 UNI[5] = {
-    {"asinh", a_real_asinh, b_asinh, asinhq, d_all}, {"acosh", a_real_acosh, b_acosh, acoshq, d_acosh}, {"atanh", a_real_atanh, b_atanh, atanhq, d_atanh},
-    {"expm1", a_real_expm1, b_expm1, expm1q, d_all}, {"log1p", a_real_log1p, b_log1p, log1pq, d_log1p}};
+    {"asinh", a_real_asinh, b_asinh, r_asinh, d_all}, {"acosh", a_real_acosh, b_acosh, r_acosh, d_acosh}, {"atanh", a_real_atanh, b_atanh, r_atanh, d_atanh},
+    {"expm1", a_real_expm1, b_expm1, r_expm1, d_all}, {"log1p", a_real_log1p, b_log1p, r_log1p, d_log1p}};
 
 static uint64_t n_eval, n_nt;
 static const double ULPS = 8; // tolerated error in units of eps*|w| (worst observed on the unchanged tree is recorded in the evidence)
@@ -80,18 +102,18 @@ static void uni_one(int f, a_real x)
 {
     const U1 &u = UNI[f];
     if (!std::isfinite((double)x) || !u.dom((double)x)) { return; }
-    Q want = u.ref((Q)x);
-    if (!finiteq(want) || fabsq(want) > (Q)RMAX / 2) { return; }
-    if (want != 0 && fabsq(want) < (Q)RMIN * 2) { return; } // subnormal results carry absolute, not relative, precision
+    UQ want = u.ref((UQ)x);
+    if (!u_fin(want) || u_abs(want) > (UQ)RMAX / 2) { return; }
+    if (want != 0 && u_abs(want) < (UQ)RMIN * 2) { return; } // subnormal results carry absolute, not relative, precision
+    // the conditioning of the function with respect to a half-ulp change of its argument is part of the budget
+    UQ w2 = u.ref((UQ)x * (1 + (UQ)EPS / 2));
+    double cond = u_fin(w2) && want != 0 ? (double)(u_abs(w2 - want) / ((UQ)EPS * u_abs(want))) : 0;
     for (int which = 0; which < 2; ++which)
     {
         a_real got = which ? u.bound(x) : u.fallback(x);
         ++n_eval;
         n_nt += want != 0;
-        double err = want == 0 ? (got == 0 ? 0 : 1e300) : (double)(fabsq((Q)got - want) / ((Q)EPS * fabsq(want)));
-        // the conditioning of the function with respect to a half-ulp change of its argument is part of the budget
-        Q w2 = u.ref((Q)x * (1 + (Q)EPS / 2));
-        double cond = finiteq(w2) && want != 0 ? (double)(fabsq(w2 - want) / ((Q)EPS * fabsq(want))) : 0;
+        double err = want == 0 ? (got == 0 ? 0 : 1e300) : (double)(u_abs((UQ)got - want) / ((UQ)EPS * u_abs(want)));
         double ratio = err / (1 + cond);
         if (ratio > worst[f * 2 + which]) { worst[f * 2 + which] = ratio; }
         if (!(ratio <= ULPS))
